@@ -1,7 +1,89 @@
 import SshAudit.Driver.WireOps
+import SshAudit.Model.Target
 namespace SshAudit.Driver
+open SshAudit SshAudit.Target
 
-/-- line-protocol operations of the Target model (stub; filled in when the model lands) -/
-def targetOp (_op : String) (_args : List String) : Option J := none
+/-- `-4`/`-6` options in the order written: a token of the characters `4`/`6` (`-` = none) -/
+def decFlags (tok : String) : Option (List Nat) :=
+  if tok = "-" then some [] else
+    tok.toList.mapM (fun c => if c = '4' then some 4 else if c = '6' then some 6 else none)
+
+def decOptInt (tok : String) : Option (Option Int) :=
+  if tok = "~" then some none else (decInt tok).map some
+
+/-- resolver table rows `host;af;socktype;ip` -/
+def decRow (s : Str) : Option (Str × Nat × Nat × Str) :=
+  match Text.splitOn ';' s with
+  | [h, af, st, ip] => do
+    let af ← Text.parseNat? af
+    let st ← Text.parseNat? st
+    pure (h, af, st, ip)
+  | _ => none
+
+/-- the synthetic resolver of the harness: rows of the asked host, filtered by family when one is
+    given; no row = `gaierror`; the sockaddr carries the asked port -/
+def tableResolver (tab : List (Str × Nat × Nat × Str)) : Resolver := fun host port fam =>
+  let rows := tab.filter (fun r => r.1 == host && (fam == 0 || r.2.1 == fam))
+  if rows.isEmpty then none
+  else some (rows.map (fun r => { af := r.2.1, stype := r.2.2.1, ip := r.2.2.2, port := port }))
+
+def jevent : Event → J
+  | .resolve h p f => .arr [.str "r".toList, .str h, .num p, .nat f]
+  | .connect af ip p => .arr [.str "c".toList, .nat af, .str ip, .num p]
+
+def connErrName : ConnErr → String
+  | .gai => "gai" | .noRecords => "norecords" | .refused => "refused"
+
+def jreport (r : Report) : J := .obj [
+  ("host", .str r.host), ("port", .num r.port), ("text", .str r.text), ("verbose", .str r.verbose),
+  ("json", .str r.json), ("err", J.ofOpt (fun e => .str (connErrName e).toList) r.err)]
+
+def jconf (c : Conf) : J := .obj [
+  ("host", .str c.host), ("port", .num c.port), ("pref", .arr (c.pref.map J.nat)),
+  ("client", .bool c.clientAudit), ("targets", J.ofStrs c.targetList)]
+
+def decArgs (host oport flags client targets : String) : Option Args := do
+  let host ← decStr host
+  let oport ← decOptInt oport
+  let flags ← decFlags flags
+  let client ← decBool client
+  let targets ← decOptStr targets
+  pure { host := host, oport := oport, flags := flags, clientAudit := client, targets := targets }
+
+def targetOp (op : String) (args : List String) : Option J :=
+  match op, args with
+  | "target.parse", [s, d] => do
+      let s ← decStr s; let d ← decInt d
+      pure (jres (fun (hp : Str × Int) => .arr [.str hp.1, .num hp.2]) (parseHostPort s d))
+  | "target.int", [s] => do
+      let s ← decStr s
+      pure (match pyInt s with | some i => jok (.str (toString i).toList) | none => jerr .value)
+  | "target.strip", [s] => do let s ← decStr s; pure (jok (.str (strip s)))
+  | "target.isv6", [s] => do let s ← decStr s; pure (jok (.bool (isIPv6 s)))
+  | "target.file", [s] => do let s ← decStr s; pure (jok (J.ofStrs (fileTargets s)))
+  | "target.label", [h, p] => do
+      let h ← decStr h; let p ← decInt p
+      pure (jok (.arr [.str (labelText h p), .str (labelVerbose h p), .str (labelJson h p)]))
+  | "target.pref", [f] => do
+      let f ← decFlags f
+      pure (jok (.arr [.arr ((ipPref f).map J.nat), .nat (familyArg (ipPref f))]))
+  | "target.order", [f, rows] => do
+      let f ← decFlags f
+      let rows ← decStrs rows
+      let tab ← rows.mapM decRow
+      let ans : List AddrInfo := tab.map (fun r => { af := r.2.1, stype := r.2.2.1, ip := r.2.2.2, port := 0 })
+      pure (jok (.arr ((resolveOrder (ipPref f) ans).map (fun a => .arr [.nat a.af, .str a.ip]))))
+  | "target.cmdline", [host, oport, flags, client, targets] => do
+      let a ← decArgs host oport flags client targets
+      pure (jres jconf (cmdline a))
+  | "target.run", [host, oport, flags, client, targets, rows, ups] => do
+      let a ← decArgs host oport flags client targets
+      let rows ← decStrs rows
+      let tab ← rows.mapM decRow
+      let ups ← decStrs ups
+      let (evs, r) := mainRun a (tableResolver tab) (fun ai => ups.contains ai.ip)
+      pure (.obj [("events", .arr (evs.map jevent)),
+                  ("result", jres (fun l => .arr (l.map (jres jreport))) r)])
+  | _, _ => none
 
 end SshAudit.Driver
